@@ -4,6 +4,7 @@ go 1.21
 
 require (
 	github.com/BurntSushi/toml v0.3.0
+	github.com/dgraph-io/badger v0.0.0-20180227002726-94594b20babf
 	github.com/honeytrap/honeytrap v0.0.0
 	github.com/mimoo/disco v0.0.0-20180114190844-15dd4b8476c9
 	golang.org/x/crypto v0.0.0-20200128174031-69ecbb4d6d5d
@@ -16,7 +17,6 @@ require (
 	github.com/boltdb/bolt v1.3.1 // indirect
 	github.com/cenkalti/backoff/v4 v4.0.0 // indirect
 	github.com/davecgh/go-spew v1.1.0 // indirect
-	github.com/dgraph-io/badger v0.0.0-20180227002726-94594b20babf // indirect
 	github.com/dgryski/go-farm v0.0.0-20180109070241-2de33835d102 // indirect
 	github.com/dutchcoders/gobus v0.0.0-20180915095724-ece5a7810d96 // indirect
 	github.com/eapache/go-resiliency v1.0.0 // indirect
